@@ -19,6 +19,8 @@ def gen_bloom(rng, n, tag='b'):
     for c in range(n):
         u = rng.choice([4, 6, 8, 12])
         m = rng.choice([1, 2, 3, 5, 8, 16, 31, 64])
+        if rng.random() < 0.06:
+            m = rng.choice([300, 70000, 65537])      # bit positions beyond u8/u16
         k = rng.choice([0, 1, 1, 2, 3, 5, 9])
         cfg = {'hasher': hasher(rng), 'u': u}
         L = ['new 0 %d %d' % (m, k), 'new 1 %d %d' % (m, k)]
@@ -55,6 +57,8 @@ def gen_cms(rng, n, tag='c'):
         u = rng.choice([3, 5, 8])
         w = rng.choice([1, 1, 2, 3, 4, 7, 16])
         d = rng.choice([1, 1, 2, 3, 5])
+        if rng.random() < 0.06:
+            w, d = rng.choice([300, 70000]), rng.choice([1, 2])    # positions beyond u8/u16 (narrowing casts in the address)
         ct = rng.choice(list(CT))
         cfg = {'hasher': hasher(rng), 'u': u, 'ctype': ct}
         L = ['new 0 %d %d' % (w, d), 'new 1 %d %d' % (w, d)]
@@ -133,6 +137,8 @@ def gen_cuckoo(rng, n, tag='k'):
         u = rng.choice([4, 6, 8, 10])
         bs = rng.choice([2, 2, 2, 3, 4])
         nb = rng.choice([2, 2, 4, 4, 8])
+        if rng.random() < 0.05:
+            nb = 512                                 # bucket indices beyond u8
         l = rng.choice([2, 2, 3, 5, 8, 16, 33, 64])
         cfg = {'hasher': hasher(rng, 0.8), 'u': u, 'rngseed': rng.randrange(1 << 32)}
         L = ['new 0 %d %d %d' % (bs, nb, l), 'new 1 %d %d %d' % (bs, nb, l)]
@@ -167,7 +173,7 @@ def gen_cuckoo(rng, n, tag='k'):
 def gen_qf(rng, n, tag='q'):
     out = []
     for c in range(n):
-        bq, br = rng.choice([(1, 1), (1, 2), (2, 1), (2, 2), (2, 3), (3, 1), (3, 2), (3, 3), (4, 2), (4, 60), (12, 52), (5, 1)])
+        bq, br = rng.choice([(1, 1), (1, 2), (2, 1), (2, 2), (2, 3), (3, 1), (3, 2), (3, 3), (4, 2), (4, 60), (12, 52), (5, 1), (9, 3)])
         u = rng.choice([6, 10, 16, 24])
         cfg = {'hasher': hasher(rng, 0.7), 'u': u}
         L = ['new 0 %d %d' % (bq, br), 'new 1 %d %d' % (bq, br)]
@@ -268,7 +274,7 @@ def gen_lossy(rng, n, tag='l'):
             w = rng.choice([1, 2, 3, 3, 4, 5, 7, 10, 16])
             L.append('new 0 %d' % w); eps = 1.0 / w
         else:
-            eps = rng.choice([0.5, 0.25, 0.3, 0.1, 0.07, 0.9, 0.34, rng.uniform(0.02, 0.99)])
+            eps = rng.choice([0.5, 0.25, 0.3, 0.1, 0.07, 0.9, 0.34, rng.uniform(0.02, 0.99), 3e-3, 1e-3, 1e-5, 2.3e-10])
             L.append('neweps 0 %d' % f64bits(eps))
             import math
             w = int(math.ceil(1.0 / eps))
